@@ -98,6 +98,33 @@ CLAIMED = {
         technique="TLA+ state machine of step/signal calls checked by TLC over all interleavings; exported schedules forced on the "
                   "real code; recorded ledgers validated by a trace spec",
         design="5/C11", engine="tlc-exhaustive"),
+    "C12": dict(
+        text="spec/Instance.tla is a state machine of one schema instance's life (lazily filled caches: decoded defaults, unit "
+             "caches; links; the decoded default map of a by-value sub-object; caller-owned arguments; call history) in which every "
+             "call's result must lie in PureSet(schema, op, arg); TLC checks HistoryFree, Deterministic, CacheIntegrity, "
+             "DescribeUnchanged, ArgumentPreserved over all call histories of length <=3/4, and first exhibits every NAMED deviation "
+             "(aliased defaults, colliding map keys, in-place discriminator stripping, enum early return) on the model, whose witnesses "
+             "become targeted histories. Every history is run on ONE real instance: N-fold evaluation of each call (map order "
+             "re-randomised), deep argument snapshots, GetDefaults/SelfSerialize and results compared with a fresh instance; random "
+             "longer histories are validated by InstanceTrace.tla.",
+        note=TRUST + "The harness's own schema builder (units incl. package-level sets, map-based and struct-mapped objects with defaults, "
+             "rebuilt scopes, colliding maps, one-of, enums, callable steps); determinism is a bounded observation (20/200 evaluations).",
+        technique="TLA+ state machine of a schema instance checked by TLC over call histories; histories replayed on one real instance "
+                  "against fresh instances; recorded histories validated by a trace spec",
+        design="5/C12", engine="tlc-exhaustive"),
+    "C13": dict(
+        text="spec/Instance.tla with 2-3 goroutine program counters stepping through the lazy paths at memory-access granularity (unit "
+             "caches, lazy defaults, sub-object default propagation, step data under its mutex); TLC checks NoRace (two conflicting "
+             "accesses without a common lock), InitOnce and Isolated on every interleaving and exports first-use schedules; each "
+             "schedule is run on a FRESH or freshly rebuilt instance (package-level values in a fresh process) by 2-16 goroutines "
+             "released from one barrier in a binary built with -race from the working tree: every result must equal the isolated one "
+             "and the Go race detector - the observation instrument for data races in real code - must stay silent; fatal concurrent "
+             "map errors with SDK frames count as races.",
+        note=TRUST + "The Go race detector sees only interleavings that occur (first-use detection is probabilistic; thousands of fresh "
+             "instances/processes per run); UnserializeScope leaves references unlinked, the harness links single-threaded before sharing.",
+        technique="TLA+ memory-access-level model checked by TLC for data races; exported first-use schedules run under the Go race "
+                  "detector on fresh instances; recorded results validated by a trace spec",
+        design="5/C13", engine="tlc-exhaustive"),
     "C15": dict(
         text="spec/Compat.tla states the property as a partial specification over an abstract schema AST: MustReject (different base "
              "kind, incompatible element/key/value/property types, undeclared or missing-required property, differing enforced IDs, "
